@@ -4,6 +4,7 @@ CONSTANTS
   Modes = {"insert"}
   OwnsAllSet = {FALSE, TRUE}
   Rich = 0
+  WithMaps = FALSE
   MaxLen = 3
   MaxEdits = 1
   EditInApply = FALSE
